@@ -79,6 +79,9 @@ def run(ctx):
     nsess = ctx.n(100, 900)
     for si in range(nsess):
         kind = r.choice(["base", "lib", "lib", "cli", "vmware"])
+        vm_corpus = si % 10 == 6
+        if vm_corpus:
+            kind = "vmware"        # every tenth session: the VMware variant on a 32-bit format with all near misses of its pattern
         opts = {}
         if r.random() < .6:
             opts["password"] = "".join(chr(r.randrange(33, 127)) for _ in range(r.randint(0, 10)))
@@ -86,6 +89,10 @@ def run(ctx):
             if r.random() < .3:
                 opts[o] = r.random() < .5
         parts, pf, ver, authresp, (w, h) = gen_handshake(r, kind if kind != "vmware" else "lib", opts)
+        tries = 0
+        while vm_corpus and pf.bypp != 4 and tries < 50:
+            tries += 1
+            parts, pf, ver, authresp, (w, h) = gen_handshake(r, "lib", opts)
         sess = Session(pf)
         msgs = gen_messages(r, sess, r.randint(0, 6), maxarea=2500)
         if si % 9 == 4:
@@ -113,9 +120,10 @@ def run(ctx):
         if kind == "vmware" and pf.bypp == 4:
             # near misses of the workaround's pattern: other 20-byte messages about the top-left pixel (a 1x1 CopyRect to (0,0)),
             # and the same 1x1 raw update one pixel further - each arrives as a chunk of its own in the "one message per chunk" run
-            for _ in range(r.randint(1, 3)):
-                near = r.choice([Rect(0, 0, 1, 1, E_COPY, struct.pack("!HH", r.randrange(3), r.randrange(3)), [], "copyrect"),
-                                 enc_raw(r, pf, 1, 0, 1, 1), enc_raw(r, pf, 0, 1, 1, 1)])
+            for ni in range(4 if vm_corpus else r.randint(1, 3)):
+                cands = [Rect(0, 0, 1, 1, E_COPY, struct.pack("!HH", r.randrange(3), r.randrange(3)), [], "copyrect"),
+                         enc_raw(r, pf, 1, 0, 1, 1), enc_raw(r, pf, 0, 1, 1, 1), enc_rre(r, pf, 0, 0, 1, 1)]
+                near = cands[ni] if vm_corpus else r.choice(cands[:3])
                 if near.kind == "copyrect":
                     near.copy = struct.unpack("!HH", near.body) + (0, 0, 1, 1)
                 msgs.insert(r.randint(0, len(msgs)), (sess.update([near]), ("update", [near], False)))
